@@ -149,6 +149,35 @@ def judge_twin(builder, tree, plan, header, extra_toolchain=True):
         return "NOT_MULTI_TU_SAFE", detail
     else:
         verdict = "BOTH_REJECT"
+    if extra_toolchain and plan["toolchain"].get("matrix"):
+        # the same probe, both packagings, under every compiler x standard configuration
+        detail["matrix"] = {}
+        tasks = []
+        for comp in sorted(COMPILERS):
+            for std in STDS:
+                tc = (comp, std)
+                if tc == tca:
+                    continue
+                tasks.append((tc, "single", header, s_src, s))
+                tasks.append((tc, "multi", None, m_src, m))
+        from concurrent.futures import ThreadPoolExecutor
+
+        with ThreadPoolExecutor(6) as ex:
+            outs = list(ex.map(lambda t: builder.build(t[1], t[2], t[3], t[0]), tasks))
+        for (tc, which, hdr, src, r0), o in zip(tasks, outs):
+            detail["matrix"]["%s/%s" % (toolchain_id(tc), which)] = {"ok": o["ok"], "same_output": bool(o["ok"] and r0["ok"] and o["stdout"] == r0["stdout"])}
+        for (tc, which, hdr, src, r0), o in zip(tasks, outs):
+            if o.get("harness_error"):
+                return "HARNESS", detail
+            if o["ok"] != r0["ok"] or (o["ok"] and (o["stdout"] != r0["stdout"] or o["rc"] != r0["rc"])):
+                detail["toolchain_b"] = toolchain_id(tc)
+                detail["b_variant"] = which
+                detail["b"] = _brief(o)
+                detail["a_ref"] = _brief(r0)
+                if o["ok"] and r0["ok"]:
+                    detail["diff"] = _first_diff(r0["stdout"], o["stdout"])
+                return "TOOLCHAIN_DEPENDENT", detail
+        return verdict, detail
     tcb = plan["toolchain"].get("b")
     if extra_toolchain and tcb and tuple(tcb) != tca:
         tcb = tuple(tcb)
